@@ -46,6 +46,8 @@ type c10Sys struct {
 	now       time.Time
 	clock     oidc.Clock
 	store     oidc.SessionStore
+	store2    oidc.SessionStore // a second replica on the same Redis server (nil for the memory store)
+	rc2       *redis.Client
 	mini      *miniredis.Miniredis
 	rc        *redis.Client
 	cands     map[string][]c10Cand
@@ -55,6 +57,9 @@ type c10Sys struct {
 func (s *c10Sys) Close() {
 	if s.rc != nil {
 		_ = s.rc.Close()
+	}
+	if s.rc2 != nil {
+		_ = s.rc2.Close()
 	}
 	if s.mini != nil {
 		world.Minis.Put(s.mini)
@@ -74,6 +79,12 @@ func newC10Sys(kind string, abs, idle int) *c10Sys {
 			panic(err)
 		}
 		s.store = r
+		s.rc2 = redis.NewClient(&redis.Options{Addr: s.mini.Addr(), MaxRetries: -1})
+		r2, err := oidc.NewRedisStore(&s.clock, s.rc2, a, i)
+		if err != nil {
+			panic(err)
+		}
+		s.store2 = r2
 	} else {
 		s.store = oidc.NewMemoryStore(&s.clock, a, i)
 	}
@@ -137,10 +148,22 @@ type c10Replay struct {
 }
 
 func c10Model(run *ev.Run, kind string, abs, idle int, ids []string) seqx.Model {
+	return c10ModelR(run, kind, abs, idle, ids, false)
+}
+
+func c10ModelR(run *ev.Run, kind string, abs, idle int, ids []string, replicas bool) seqx.Model {
+	replicas = replicas && kind == "redis"
 	var evs []seqx.Event
 	for _, id := range ids {
 		for _, k := range []string{"SetTokens", "SetState", "GetTokens", "GetState", "Clear"} {
 			evs = append(evs, seqx.Event{Kind: k, Who: id})
+		}
+		if replicas {
+			// Redis, thorough: every operation may also go through a second replica, and sessions may be removed
+			for _, k := range []string{"SetTokens", "GetTokens", "Remove"} {
+				evs = append(evs, seqx.Event{Kind: k, Who: id, N: 1})
+			}
+			evs = append(evs, seqx.Event{Kind: "Remove", Who: id})
 		}
 	}
 	evs = append(evs, seqx.Event{Kind: "Advance", Adv: 1})
@@ -171,13 +194,20 @@ func c10Model(run *ev.Run, kind string, abs, idle int, ids []string) seqx.Model 
 			alts := s.expand(id, t)
 			ctx := context.Background()
 			var next []c10Cand
+			store := s.store
+			if e.N == 1 && s.store2 != nil {
+				store = s.store2
+			}
 			switch e.Kind {
+			case "Remove":
+				_ = store.RemoveSession(ctx, id)
+				next = []c10Cand{{}}
 			case "SetTokens", "SetState":
 				var err error
 				if e.Kind == "SetTokens" {
-					err = s.store.SetTokenResponse(ctx, id, c12TokenValue("full"))
+					err = store.SetTokenResponse(ctx, id, c12TokenValue("full"))
 				} else {
-					err = s.store.SetAuthorizationState(ctx, id, c12StateValue("w1"))
+					err = store.SetAuthorizationState(ctx, id, c12StateValue("w1"))
 				}
 				if err != nil && live {
 					viol(s, "write-error", fmt.Sprintf("%s returned %v", e.Kind, err), hist, e)
@@ -199,11 +229,11 @@ func c10Model(run *ev.Run, kind string, abs, idle int, ids []string) seqx.Model 
 				var err error
 				if e.Kind == "GetTokens" {
 					var tr *oidc.TokenResponse
-					tr, err = s.store.GetTokenResponse(ctx, id)
+					tr, err = store.GetTokenResponse(ctx, id)
 					got = tr != nil
 				} else {
 					var as *oidc.AuthorizationState
-					as, err = s.store.GetAuthorizationState(ctx, id)
+					as, err = store.GetAuthorizationState(ctx, id)
 					got = as != nil
 				}
 				if err != nil && live {
@@ -246,7 +276,7 @@ func c10Model(run *ev.Run, kind string, abs, idle int, ids []string) seqx.Model 
 					next = []c10Cand{{}}
 				}
 			case "Clear":
-				_ = s.store.ClearAuthorizationState(ctx, id)
+				_ = store.ClearAuthorizationState(ctx, id)
 				for _, c := range alts {
 					if c.Present {
 						c.HasState = false
@@ -358,6 +388,17 @@ func c10Run(run *ev.Run) {
 	if run.Tier == "thorough" {
 		for _, kind := range []string{"memory", "redis"} {
 			for _, p := range [][2]int{{3, 5}, {5, 3}} {
+				if kind == "redis" {
+					mr := c10ModelR(run, kind, p[0], p[1], []string{"a"}, true)
+					mr.MaxDepth = 8
+					st := seqx.Explore(run, mr)
+					total.States += st.States
+					total.Transitions += st.Transitions
+					total.Histories += st.Histories
+					if !st.Complete {
+						run.Cap(fmt.Sprintf("redis (%d,%d) two replicas: stopped at depth %d", p[0], p[1], st.DepthDone))
+					}
+				}
 				m := c10Model(run, kind, p[0], p[1], []string{"a", "b"})
 				m.MaxDepth = 8
 				st := seqx.Explore(run, m)
@@ -507,7 +548,7 @@ func c10Binary(run *ev.Run) {
 			return
 		}
 		r2, err := check(p, strings.TrimPrefix(cb, "https://app.test"), p.sid)
-		if err != nil || world.ParseResponse(r2).HTTPStatus != 302 {
+		if err != nil || !world.IsRedirect(world.ParseResponse(r2).HTTPStatus) {
 			run.HarnessError(fmt.Sprintf("C10 binary: callback failed (%v)", err))
 			return
 		}
@@ -622,7 +663,7 @@ func c10ReplayFn(path string) int {
 	}
 	vtime.SetVirtual(true)
 	run := ev.NewRun("C10", "replay", "/nonexistent")
-	s := seqx.Replay(c10Model(run, rp.Kind, rp.Abs, rp.Idle, []string{"a", "b"}), rp.History)
+	s := seqx.Replay(c10ModelR(run, rp.Kind, rp.Abs, rp.Idle, []string{"a", "b"}, true), rp.History)
 	s.Close()
 	return replayVerdict("C10", run.Violations() > 0, "")
 }
